@@ -54,10 +54,11 @@ PROPS = {
     "C14": dict(
         module="Anonymongo.Props.C14",
         theorems=["Anonymongo.C14_walk", "Anonymongo.C14_forced", "Anonymongo.C14_path_query", "Anonymongo.C14_path_root", "Anonymongo.C14_path_stage",
-                  "Anonymongo.C14_value_free", "Anonymongo.Ctx.relAt_run"],
+                  "Anonymongo.C14_value_free", "Anonymongo.Ctx.relAt_run", "Anonymongo.C14_walk_ns", "Anonymongo.Ctx.selRelNs_run"],
+        extra_modules=["Anonymongo.Props.C14b"],
         corr=["line", "sweep", "arb", "misc"],
         statement="for an ARBITRARY predicate on names (not matching the empty name), every walker state and every tree without duplicate sibling keys: at every scalar leaf, (K) if no key on the accumulated path matches, no '$field' sibling rule fires and the leaf is not inside a search stage, it is emitted unchanged; (R) if some key on the path matches (or the sibling rule fires), a leaf handed to redactScalarValue is redacted exactly as in full-redaction mode - the class placeholder unless the key path is exempt; the accumulated path is the list of keys from the root of the filter / update / document (query walker) or of the stage (stage walker), arrays transparent; the decision never depends on the value",
-        partial="stated with field-name and namespace pseudonymisation off; the path restarts at sub-pipelines ($facet, $lookup.pipeline, $unionWith.pipeline); 'names' include operator keys (the code matches the expression against every key on the path, so an expression that matches an operator key such as $date redacts more than the property's 'field name' reading - the oracle uses expressions built from field names); the regexp engine itself (regexp.MatchString) is corresponded through the shipped match table",
+        partial="stated with field-name pseudonymisation off; --redactNamespaces either way (C14_walk_ns, Props/C14b: with it on, the only leaves touched without a matching name are the namespace positions, which become the pseudonym of the input string; C14_walk is the flag-off case); the path restarts at sub-pipelines ($facet, $lookup.pipeline, $unionWith.pipeline); 'names' include operator keys (the code matches the expression against every key on the path, so an expression that matches an operator key such as $date redacts more than the property's 'field name' reading - the oracle uses expressions built from field names); the regexp engine itself (regexp.MatchString) is corresponded through the shipped match table",
     ),
     "C15": dict(
         module="Anonymongo.Props.C15",
